@@ -2,7 +2,10 @@
 
 package security
 
-import "time"
+import (
+	"sync"
+	"time"
+)
 
 // VerifSetExpiration moves a session entry's expiry to t (virtual time for the
 // verification harness; build tag verif only).
@@ -10,4 +13,25 @@ func (s *SessionEntry) VerifSetExpiration(t time.Time) {
 	s.mu.Lock()
 	defer s.mu.Unlock()
 	s.expiration = t
+}
+
+// VerifResetProcessState puts the package back into the state of a process that
+// has not yet touched the process-wide session cache or read its inheritance
+// environment (CONDOR_INHERIT / CONDOR_PRIVATE_INHERIT), so the verification
+// harness can exercise "first use" more than once per process. The caller must
+// make sure nothing else uses the package while it runs. Build tag verif only.
+func VerifResetProcessState() {
+	globalSessionCache = nil
+	sessionCacheMutex = sync.Once{}
+	inheritedSessions = nil
+	inheritedSessionsOnce = sync.Once{}
+	inheritedParentAddr = ""
+	inheritedParentPID = 0
+}
+
+// VerifRegisterInherited files the inherited sessions (read from the environment
+// on first use) in cache, exactly as the first use of the process-wide cache
+// does for that cache. Build tag verif only.
+func VerifRegisterInherited(cache *SessionCache) (int, error) {
+	return registerInheritedSessions(cache)
 }
